@@ -1,4 +1,5 @@
 """Runs one shard of one property in a fresh process and writes its result JSON."""
+import os
 import sys
 import json
 import importlib
@@ -11,6 +12,10 @@ def main():
     faulthandler.enable()
     from lib import env
     env.setup()
+    if os.environ.get("VERIF_COVER"):
+        from lib import linecov
+        linecov.start(os.environ.get("LITEX_ROOT", "/repo"))
+        linecov.dump_at_exit(os.environ["VERIF_COVER"], prop)
     with open(spec) as f:
         shard = json.load(f)
     mod = importlib.import_module("props." + prop.lower())
